@@ -414,9 +414,16 @@ def run(tier, seed, replay=None):
     import sys
     from .. import core
     mod = sys.modules[__name__]
+    def want(c):
+        return c.startswith("C07.")
     if replay:
         rp = json.load(open(replay))
         scs = [rp["scenario"]] if "scenario" in rp else rp.get("scenarios", [])
+        if rp.get("pass") == "percg":
+            viol, _, _ = core.extra_pass(PROP, "rscgroup", "h_rscgroup", "asan", scs, tier, seed, want=want, label="percg")
+            for c, p in viol:
+                print("VIOLATION property=%s replay=%s" % (PROP, p))
+            return 1 if viol else 0
         if scs and "rulesets" in scs[0]:
             viol, _ = deadline_pass(tier, seed, only=scs)
             for c, p in viol:
@@ -431,6 +438,26 @@ def run(tier, seed, replay=None):
                                    "action returns and detector groups firing again while a chain is suspended; clauses: a resumed "
                                    "action sees the deadline of the tick its chain fired; a fresh chain's deadline = reading at "
                                    "group fire + prekill_hook_timeout")
+    # ruleset-cgroup rulesets: the per-cgroup instance carries its ruleset's prekill_hook_timeout (decided on C11's engine)
+    import os
+    import random
+    from . import C11
+    esc = tier == "quick" and core.changed_sources() and not os.environ.get("VERIF_NO_ESCALATION")
+    rng2 = random.Random(seed * 8221 + 7)
+    n2 = {"quick": 1000, "thorough": 10000, "search": 3000}["search" if esc else tier]
+    scs2 = []
+    for _ in range(n2):
+        s2 = C11.mk_scenario(rng2, calm=rng2.random() < 0.7)
+        s2["prop"] = PROP
+        for r in s2["rulesets"]:
+            r["hook_timeout"] = rng2.choice(["", "0", "1", "3", "5", "7", "30"])
+        scs2.append(s2)
+    viol2, cov2, _ = core.extra_pass(PROP, "rscgroup", "h_rscgroup", "asan", scs2, tier, seed, want=want,
+                                     shrink_candidates=C11.shrink_candidates, label="percg")
+    core.merge_extra_into_evidence(PROP, cov2, len(viol2),
+                                   "per-cgroup pass (ruleset-cgroup rulesets on h_rscgroup, prekill_hook_timeout 0/1/3/5/7/30/default): "
+                                   "a chain started in a per-cgroup instance carries the deadline group fire + the ruleset's time-out")
+    viol = viol + viol2
     for c, p in viol:
         print("VIOLATION property=%s replay=%s" % (PROP, p))
     return 1 if (rc or viol) else 0
